@@ -1,4 +1,5 @@
 import UtilModel.RefCount.ConsProofs
+import UtilModel.RefCount.ConsTrans
 import UtilModel.RefCount.ConsMonitors
 /-!
 # refcount consumers — property theorems C10 (statements a reader audits)
@@ -140,5 +141,525 @@ theorem access_reinvoke (es : List CEv) (s : CSt) (h : cmodel.run cmodel.init es
     simp only [cstep, hg, hcan, hu', and_self, if_true, hce', hres', ne_eq, not_true_eq_false, if_false]
     rw [if_neg (by simp [hce]), if_pos hres]
   · rw [getCon_setCon]; simp [setCon, hlt]
+
+
+/-- a property of single consumer entries that every local transition preserves holds in every
+reachable state -/
+theorem cons_local_inv (P : Con → Prop) (hinit : ∀ op, P { op := op })
+    (hstep : ∀ (s : CSt) (e : CEv) (a : Nat) (c c' : Con), Trans s e a c c' → P c → P c')
+    (es : List CEv) (s : CSt) (h : cmodel.run cmodel.init es = some s) (a : Nat) (c : Con)
+    (hc : getCon s a = some c) : P c := by
+  have := cmodel.run_invariant (fun s => ∀ (a : Nat) (c : Con), getCon s a = some c → P c)
+    (fun s e s' hi hs => by
+      intro a c' hc'
+      rcases (cstep_frame s s' e hs).1 a c' hc' with h | ⟨c, h1, h2⟩ | ⟨_, _, op, _, h3⟩
+      · exact hi a c' h
+      · exact hstep s e a c c' h2 (hi a c h1)
+      · rw [h3]; exact hinit op)
+    cmodel.init s es (by intro a c h; simp [cmodel, getCon] at h) h
+  exact this a c hc
+
+/-- which program counters belong to which kind of call -/
+def OpOk (c : Con) : Prop :=
+  (c.op = .access → c.pc ≠ .awaiting ∧ ∀ v e, c.pc ≠ .exitKeep v e) ∧
+  (c.op ≠ .access → c.pc = .start ∨ c.pc = .awaiting ∨ (∃ v e, c.pc = .exitWait v e) ∨
+    (∃ v e, c.pc = .exitKeep v e) ∨ c.pc = .returned)
+
+theorem opOk (es : List CEv) (s : CSt) (h : cmodel.run cmodel.init es = some s) (a : Nat) (c : Con)
+    (hc : getCon s a = some c) : OpOk c := by
+  refine cons_local_inv OpOk ?_ ?_ es s h a c hc
+  · intro op; exact ⟨fun _ => ⟨by simp, by simp⟩, fun _ => Or.inl rfl⟩
+  · intro s e a c c' ht hp
+    obtain ⟨h1, h2⟩ := hp
+    cases ht with
+    | hook a c res v er => rw [OpOk, hook_pc, hook_op]; exact ⟨h1, h2⟩
+    | started a c h =>
+      by_cases hop : c.op = .access
+      · exact ⟨fun _ => by simp [hop], fun hn => absurd hop hn⟩
+      · exact ⟨fun ha => absurd ha hop, fun _ => by simp [hop]⟩
+    | watch a c => exact ⟨h1, h2⟩
+    | cancel a c => exact ⟨h1, h2⟩
+    | goRel a c h => exact ⟨h1, h2⟩
+    | goCb a c h => exact ⟨h1, h2⟩
+    | snapErr a c h he =>
+      refine ⟨fun _ => by simp, fun hn => ?_⟩
+      simp only [snapped] at hn ⊢; exact Or.inr (Or.inr (Or.inl ⟨_, _, rfl⟩))
+    | snapCall a c h he hr =>
+      refine ⟨fun _ => by simp, fun hn => ?_⟩
+      simp only [snapped] at hn
+      rcases h2 hn with h | h | ⟨_, _, h⟩ | ⟨_, _, h⟩ | h <;> simp [canLook, h] at *
+    | snapWait a c h he hr =>
+      refine ⟨fun _ => by simp, fun hn => ?_⟩
+      simp only [snapped] at hn
+      rcases h2 hn with h | h | ⟨_, _, h⟩ | ⟨_, _, h⟩ | h <;> simp [canLook, h] at *
+    | cbin a m v n ch c h hm =>
+      refine ⟨fun _ => by simp, fun hn => ?_⟩
+      rcases h2 hn with h' | h' | ⟨_, _, h'⟩ | ⟨_, _, h'⟩ | h' <;> simp [h'] at h
+    | cbout a m r v n ch c h =>
+      refine ⟨fun _ => by simp, fun hn => ?_⟩
+      rcases h2 hn with h' | h' | ⟨_, _, h'⟩ | ⟨_, _, h'⟩ | h' <;> simp [h'] at h
+    | checkCancel a r n ch c h hc => exact ⟨fun _ => by simp, fun _ => Or.inr (Or.inr (Or.inl ⟨_, _, rfl⟩))⟩
+    | checkGo a r n ch c h hc =>
+      refine ⟨fun _ => by simp, fun hn => ?_⟩
+      rcases h2 hn with h' | h' | ⟨_, _, h'⟩ | ⟨_, _, h'⟩ | h' <;> simp [h'] at h
+    | recheckSame a r n ch c h hn => exact ⟨fun _ => by simp, fun _ => Or.inr (Or.inr (Or.inl ⟨_, _, rfl⟩))⟩
+    | recheckDiff a r n ch c h hn =>
+      refine ⟨fun _ => by simp, fun hn' => ?_⟩
+      rcases h2 hn' with h' | h' | ⟨_, _, h'⟩ | ⟨_, _, h'⟩ | h' <;> simp [h'] at h
+    | waitCancel a n ch c h hc => exact ⟨fun _ => by simp, fun _ => Or.inr (Or.inr (Or.inl ⟨_, _, rfl⟩))⟩
+    | awaitErr a v e c h hp he => exact ⟨fun _ => by simp, fun _ => Or.inr (Or.inr (Or.inl ⟨_, _, rfl⟩))⟩
+    | awaitOk a v c h hp =>
+      refine ⟨fun ha => ?_, fun _ => Or.inr (Or.inr (Or.inr (Or.inl ⟨_, _, rfl⟩)))⟩
+      exact absurd h (h1 ha).1
+    | awaitCancel a c h hc => exact ⟨fun _ => by simp, fun _ => Or.inr (Or.inr (Or.inl ⟨_, _, rfl⟩))⟩
+    | retWait a v e c h => exact ⟨fun _ => by simp, fun _ => Or.inr (Or.inr (Or.inr (Or.inr rfl)))⟩
+    | retKeep a v e c h => exact ⟨fun _ => by simp, fun _ => Or.inr (Or.inr (Or.inr (Or.inr rfl)))⟩
+
+
+/-- **C10 `access_result`.** The events that make an `Access` call return, and with what: the
+snapshot section when the reference callback last delivered an error (that resolver error is
+returned as such); the `ctx.Err()` check after the callback or the final `select` when the caller's
+context is cancelled (`Canceled`); the nonce re-check when the nonce is still the snapshot's — then,
+and only then, the callback's own result `r` of that invocation is returned. No other event makes
+Access return. -/
+theorem access_result (es : List CEv) (s : CSt) (h : cmodel.run cmodel.init es = some s)
+    (e : CEv) (s' : CSt) (hs : cstep s e = some s') (a : Nat) (c c' : Con)
+    (hc : getCon s a = some c) (hc' : getCon s' a = some c') (hop : c.op = .access)
+    (hne : ∀ v x, c.pc ≠ .exitWait v x) (v x : Nat) (hx : c'.pc = .exitWait v x) :
+    v = 0 ∧
+    ((e = .snap a ∧ x = c.ce ∧ c.ce ≠ 0) ∨
+     (x = 9 ∧ c.cancelled = true ∧ (e = .check a ∨ e = .waitCancel a)) ∨
+     (e = .recheck a ∧ ∃ n ch, c.pc = .recheck x n ch ∧ c.cnonce = n)) := by
+  have hok := opOk es s h a c hc
+  rcases (cstep_frame s s' e hs).1 a c' hc' with h1 | ⟨c0, h1, ht⟩ | ⟨h1, _⟩
+  · rw [hc] at h1; cases h1; exact absurd hx (hne v x)
+  · rw [hc] at h1; cases h1
+    cases ht with
+    | hook a c res v er => rw [hook_pc] at hx; exact absurd hx (hne _ _)
+    | started a c h => simp at hx; split at hx <;> cases hx
+    | watch a c => exact absurd hx (hne _ _)
+    | cancel a c => exact absurd hx (hne _ _)
+    | goRel a c h => exact absurd hx (hne _ _)
+    | goCb a c h => exact absurd hx (hne _ _)
+    | snapErr a c h he => simp [snapped] at hx; exact ⟨hx.1.symm, Or.inl ⟨rfl, hx.2.symm, he⟩⟩
+    | snapCall a c h he hr => simp at hx
+    | snapWait a c h he hr => simp at hx
+    | cbin a m v n ch c h hm => simp at hx
+    | cbout a m r v n ch c h => simp at hx
+    | checkCancel a r n ch c h hcn => simp at hx; exact ⟨hx.1.symm, Or.inr (Or.inl ⟨hx.2.symm, hcn, Or.inl rfl⟩)⟩
+    | checkGo a r n ch c h hcn => simp at hx
+    | recheckSame a r n ch c h hn =>
+      simp at hx; obtain ⟨rfl, rfl⟩ := hx
+      exact ⟨rfl, Or.inr (Or.inr ⟨rfl, n, ch, h, hn⟩)⟩
+    | recheckDiff a r n ch c h hn => simp at hx
+    | waitCancel a n ch c h hcn => simp at hx; exact ⟨hx.1.symm, Or.inr (Or.inl ⟨hx.2.symm, hcn, Or.inr rfl⟩)⟩
+    | awaitErr a v e c h hp he => exact absurd h (hok.1 hop).1
+    | awaitOk a v c h hp => simp at hx
+    | awaitCancel a c h hcn => exact absurd h (hok.1 hop).1
+    | retWait a v e c h => simp at hx
+    | retKeep a v e c h => simp at hx
+  · rw [hc] at h1; cases h1
+
+/-! ## ResolveWithReleased: the `released` callback -/
+
+/-- number of calls of the `released` callback of call `a` in an event list -/
+def releasedCalls (es : List CEv) (a : Nat) : Nat :=
+  (es.map fun e => if e = CEv.goCb a then 1 else 0).sum
+
+def goBudget (s : CSt) (a : Nat) : Nat :=
+  match getCon s a with
+  | some c => if c.go = .done then 0 else 1
+  | none => 1
+
+theorem hook_go (c : Con) (nonce : Nat) (res : Bool) (v er : Nat) :
+    (hook c nonce res v er).go = c.go ∨ (c.go = .none ∧ (hook c nonce res v er).go = .rel) := by
+  unfold hook
+  cases c.op <;> simp <;> (repeat' split) <;> simp_all
+
+/-- once the release goroutine has finished, no transition starts it again -/
+theorem trans_go_done (s : CSt) (e : CEv) (a : Nat) (c c' : Con) (ht : Trans s e a c c') (hd : c.go = .done) :
+    c'.go = .done := by
+  cases ht with
+  | hook a c res v er =>
+    rcases hook_go c s.b.nonce res v er with h | ⟨h, _⟩
+    · rw [h]; exact hd
+    · rw [hd] at h; cases h
+  | goRel a c h => rw [hd] at h; cases h
+  | goCb a c h => rfl
+  | _ => exact hd
+
+theorem goBudget_step (s s' : CSt) (e : CEv) (a : Nat) (hs : cstep s e = some s') :
+    goBudget s' a + (if e = CEv.goCb a then 1 else 0) ≤ goBudget s a := by
+  by_cases he : e = CEv.goCb a
+  · subst he
+    simp only [cstep] at hs
+    cases hc : getCon s a with
+    | none => simp [hc] at hs
+    | some c =>
+      simp only [hc] at hs
+      split at hs <;> simp at hs
+      rename_i hcond
+      subst hs
+      have hlt := getCon_lt s a c hc
+      simp [goBudget, hc, getCon_setCon, hlt, hcond.1]
+  · simp only [he, if_false, Nat.add_zero]
+    obtain ⟨hf, hp⟩ := cstep_frame s s' e hs
+    unfold goBudget
+    cases hc : getCon s a with
+    | none => simp only; split <;> (try split) <;> omega
+    | some c =>
+      obtain ⟨c', hc'⟩ := hp a c hc
+      rw [hc']
+      simp only
+      rcases hf a c' hc' with h1 | ⟨c0, h1, ht⟩ | ⟨h1, _⟩
+      · rw [hc] at h1; cases h1; exact Nat.le_refl _
+      · rw [hc] at h1; cases h1
+        by_cases hd : c.go = .done
+        · simp [hd, trans_go_done s e a c c' ht hd]
+        · simp only [hd, if_false]; split <;> omega
+      · rw [hc] at h1; cases h1
+
+theorem goBudget_run (s s' : CSt) (es : List CEv) (a : Nat) (hr : cmodel.run s es = some s') :
+    releasedCalls es a + goBudget s' a ≤ goBudget s a := by
+  induction es generalizing s with
+  | nil => simp [OLTS.run] at hr; subst hr; simp [releasedCalls]
+  | cons e es ih =>
+    simp only [OLTS.run] at hr
+    cases hst : cmodel.step s e with
+    | none => simp [hst] at hr
+    | some s1 =>
+      simp [hst] at hr
+      have h1 := goBudget_step s s1 e a hst
+      have h2 := ih s1 hr
+      simp only [releasedCalls, List.map_cons, List.sum_cons] at h2 ⊢
+      omega
+
+/-- **C10 `released_once` (at most once).** For every event list, the `released` callback handed to
+`ResolveWithReleased` / `WaitWithReleased` is called at most once. -/
+theorem released_once (es : List CEv) (s : CSt) (h : cmodel.run cmodel.init es = some s) (a : Nat) :
+    releasedCalls es a ≤ 1 := by
+  have := goBudget_run cmodel.init s es a h
+  have h0 : goBudget cmodel.init a = 1 := by simp [goBudget, cmodel, getCon]
+  omega
+
+/-- **C10 `released_once` (exactly when).** The release goroutine (which releases the reference and
+calls `released`) is started by exactly one kind of event: a notification of the call's own
+reference that arrives after the call has seen its first result (`wres`) and that says "no longer
+resolved" or carries a different generation — i.e. the value it returned was invalidated. It then
+runs to the callback: each of its steps is its own, enabled once the mutex is free, and at a
+quiescent point it has finished (`Con.quiet`). -/
+theorem released_fires_iff (s s' : CSt) (e : CEv) (hs : cstep s e = some s') (a : Nat) (c c' : Con)
+    (hc : getCon s a = some c) (hc' : getCon s' a = some c') (h0 : c.go = .none) (h1 : c'.go ≠ .none) :
+    ∃ res v er, e = .base (.cb (.refcb a false res v er)) ∧ (∃ cb, c.op = .rwr cb) ∧ c.wres = true ∧
+      (res = false ∨ s.b.nonce ≠ c.wnonce) ∧ c'.go = .rel := by
+  rcases (cstep_frame s s' e hs).1 a c' hc' with h2 | ⟨c0, h2, ht⟩ | ⟨h2, _⟩
+  · rw [hc] at h2; cases h2; exact absurd h0 h1
+  · rw [hc] at h2; cases h2
+    cases ht with
+    | hook a c res v er =>
+      refine ⟨res, v, er, rfl, ?_⟩
+      have hgo : (hook c s.b.nonce res v er).go = .rel := by
+        rcases hook_go c s.b.nonce res v er with h | ⟨_, h⟩
+        · rw [h] at h1; exact absurd h0 h1
+        · exact h
+      refine ⟨?_, ?_, ?_, hgo⟩
+      all_goals
+        unfold hook at hgo
+        cases hop : c.op with
+        | access => rw [hop] at hgo; simp only at hgo; split at hgo <;> (rw [h0] at hgo; cases hgo)
+        | wait => rw [hop] at hgo; simp only at hgo; rw [h0] at hgo; cases hgo
+        | resolve => rw [hop] at hgo; simp only at hgo; rw [h0] at hgo; cases hgo
+        | rwr cb =>
+          rw [hop] at hgo; simp only at hgo
+          by_cases hw : c.wres = true
+          · rw [if_pos hw] at hgo
+            by_cases hcond : (!res) = true ∨ s.b.nonce ≠ c.wnonce
+            · first
+              | exact ⟨cb, rfl⟩
+              | exact hw
+              | (rcases hcond with h | h
+                 · left; simpa using h
+                 · right; exact h)
+            · rw [if_neg hcond, h0] at hgo; cases hgo
+          · rw [if_neg hw] at hgo
+            split at hgo <;> (try simp only at hgo) <;> (rw [h0] at hgo; cases hgo)
+    | goRel a c h => rw [h0] at h; cases h
+    | goCb a c h => rw [h0] at h; cases h
+    | _ => exact absurd h0 h1
+  · rw [hc] at h2; cases h2
+
+
+/-! ## Wait / Resolve / ResolveWithReleased: the held reference keeps the value alive -/
+
+/-- a step of the composed model in which a release function gets called is a base event -/
+theorem cstep_flip_base (s s' : CSt) (e : CEv) (hi : CInv s) (hs : cstep s e = some s') (i : Nat)
+    (h0 : released s.b i = false) (h1 : released s'.b i = true) :
+    ∃ be, e = .base be ∧ step s.b be = some s'.b := by
+  have noflip : ∀ (be : Ev) (b' : St), step s.b be = some b' → (be = .invHook 0 ∨ True) →
+      (∀ a, be ≠ .setCtxCS a) → (∀ j, be ≠ .relRun j) → (∀ b, be ≠ .relCS b) → (∀ b, be ≠ .selfRelCS b) →
+      (be ≠ .store i) → released b' i = true → False := by
+    intro be b' hst _ n1 n2 n3 n4 n5 hr
+    rcases flip_cases s.b b' be i hi.base hst h0 hr with ⟨_, s1, hk, _⟩ | ⟨he, _⟩
+    · cases hk with
+      | ctxChange a he _ _ => exact n1 a he
+      | releasedCb j he _ _ => exact n2 j he
+      | lastRef b he _ _ => rcases he with he | he; exact n3 b he; exact n4 b he
+    · exact n5 he
+  have exitNo : ∀ (a : Nat) (c : Con) (v x : Nat), exitRel s a c v x = some s' → False := by
+    intro a c v x hx
+    unfold exitRel at hx
+    cases hst : step s.b (.selfRelSwap a) with
+    | none => simp [hst] at hx
+    | some b' =>
+      simp [hst] at hx; subst hx
+      exact noflip _ b' hst (Or.inr trivial) (by simp) (by simp) (by simp) (by simp) (by simp) h1
+  have same : ∀ (s2 : CSt), s' = s2 → s2.b.calls = s.b.calls → False := by
+    intro s2 h2 h3
+    rw [h2] at h1
+    have : released s2.b i = released s.b i := by unfold released; rw [h3]
+    rw [this, h0] at h1; cases h1
+  cases e with
+  | base be =>
+    refine ⟨be, rfl, ?_⟩
+    cases be with
+    | invHook a => simp [cstep] at hs
+    | selfRelSwap a => simp [cstep] at hs
+    | probe v e => simp [cstep] at hs
+    | quiesce B => simp [cstep] at hs
+    | addRefCS a =>
+      simp only [cstep] at hs
+      cases hst : step s.b (.addRefCS a) with
+      | none => simp [hst] at hs
+      | some b' =>
+        simp only [hst] at hs
+        cases hc : getCon s a with
+        | none => simp [hc] at hs; subst hs; rfl
+        | some c => simp only [hc] at hs; split at hs <;> simp at hs; subst hs; rfl
+    | cb it =>
+      cases it with
+      | rel j k seen =>
+        simp only [cstep] at hs
+        cases hst : step s.b (.cb (.rel j k seen)) with
+        | none => simp [hst] at hs
+        | some b' => simp [hst] at hs; subst hs; rfl
+      | refcb a vis res v er =>
+        cases vis with
+        | true =>
+          simp only [cstep] at hs
+          cases hst : step s.b (.cb (.refcb a true res v er)) with
+          | none => simp [hst] at hs
+          | some b' => simp [hst] at hs; subst hs; rfl
+        | false =>
+          simp only [cstep] at hs
+          cases hst : step s.b (.cb (.refcb a false res v er)) with
+          | none => simp [hst] at hs
+          | some b' =>
+            simp only [hst] at hs
+            cases hc : getCon s a with
+            | none => simp [hc] at hs; subst hs; rfl
+            | some c => simp [hc] at hs; subst hs; rfl
+    | _ =>
+      simp only [cstep] at hs
+      split at hs <;> simp at hs
+      subst hs
+      rename_i b' hst
+      exact hst
+  | inv a op =>
+    exfalso
+    simp only [cstep] at hs
+    cases hst : step s.b (.invHook a) with
+    | none => simp [hst] at hs
+    | some b' =>
+      simp [hst] at hs; subst hs
+      exact noflip _ b' hst (Or.inr trivial) (by simp) (by simp) (by simp) (by simp) (by simp) h1
+  | goRel a =>
+    exfalso
+    simp only [cstep] at hs
+    cases hc : getCon s a with
+    | none => simp [hc] at hs
+    | some c =>
+      simp only [hc] at hs
+      split at hs <;> try simp at hs
+      cases hst : step s.b (.selfRelSwap a) with
+      | none => simp [hst] at hs
+      | some b' =>
+        simp [hst] at hs; subst hs
+        exact noflip _ b' hst (Or.inr trivial) (by simp) (by simp) (by simp) (by simp) (by simp) h1
+  | snap a =>
+    exfalso
+    simp only [cstep] at hs
+    cases hc : getCon s a with
+    | none => simp [hc] at hs
+    | some c =>
+      simp only [hc] at hs
+      split at hs <;> try simp at hs
+      split at hs
+      · split at hs <;> simp at hs <;> exact same _ hs.symm rfl
+      · exact exitNo _ _ _ _ hs
+  | watch a =>
+    exfalso
+    simp only [cstep] at hs
+    cases hc : getCon s a with
+    | none => simp [hc] at hs
+    | some c =>
+      simp only [hc] at hs
+      split at hs <;> try simp at hs
+      all_goals exact same _ hs.2.symm rfl
+  | cbin a m v =>
+    exfalso
+    simp only [cstep] at hs
+    cases hc : getCon s a with
+    | none => simp [hc] at hs
+    | some c =>
+      simp only [hc] at hs
+      split at hs <;> try simp at hs
+      exact same _ hs.2.symm rfl
+  | cbout a m r =>
+    exfalso
+    simp only [cstep] at hs
+    cases hc : getCon s a with
+    | none => simp [hc] at hs
+    | some c =>
+      simp only [hc] at hs
+      split at hs <;> try simp at hs
+      exact same _ hs.2.symm rfl
+  | check a =>
+    exfalso
+    simp only [cstep] at hs
+    cases hc : getCon s a with
+    | none => simp [hc] at hs
+    | some c =>
+      simp only [hc] at hs
+      split at hs <;> try simp at hs
+      split at hs
+      · exact exitNo _ _ _ _ hs
+      · simp at hs; exact same _ hs.symm rfl
+  | recheck a =>
+    exfalso
+    simp only [cstep] at hs
+    cases hc : getCon s a with
+    | none => simp [hc] at hs
+    | some c =>
+      simp only [hc] at hs
+      split at hs <;> try simp at hs
+      split at hs
+      · exact exitNo _ _ _ _ hs
+      · simp at hs; exact same _ hs.symm rfl
+  | waitCancel a =>
+    exfalso
+    simp only [cstep] at hs
+    cases hc : getCon s a with
+    | none => simp [hc] at hs
+    | some c =>
+      simp only [hc] at hs
+      split at hs <;> try simp at hs
+      exact exitNo _ _ _ _ hs.2
+  | await a =>
+    exfalso
+    simp only [cstep] at hs
+    cases hc : getCon s a with
+    | none => simp [hc] at hs
+    | some c =>
+      simp only [hc] at hs
+      split at hs <;> try simp at hs
+      split at hs <;> try simp at hs
+      split at hs
+      · simp at hs; exact same _ hs.symm rfl
+      · exact exitNo _ _ _ _ hs
+  | awaitCancel a =>
+    exfalso
+    simp only [cstep] at hs
+    cases hc : getCon s a with
+    | none => simp [hc] at hs
+    | some c =>
+      simp only [hc] at hs
+      split at hs <;> try simp at hs
+      exact exitNo _ _ _ _ hs
+  | ret a v e =>
+    exfalso
+    simp only [cstep] at hs
+    cases hc : getCon s a with
+    | none => simp [hc] at hs
+    | some c =>
+      simp only [hc] at hs
+      split at hs <;> try simp at hs
+      · exact same _ hs.2.symm rfl
+      · obtain ⟨_, hs⟩ := hs
+        split at hs <;> simp at hs
+        exact same _ hs.symm rfl
+  | envCancelCall a =>
+    exfalso
+    simp only [cstep] at hs
+    cases hc : getCon s a with
+    | none => simp [hc] at hs
+    | some c => simp [hc] at hs; exact same _ hs.symm rfl
+  | goCb a =>
+    exfalso
+    simp only [cstep] at hs
+    cases hc : getCon s a with
+    | none => simp [hc] at hs
+    | some c =>
+      simp only [hc] at hs
+      split at hs <;> simp at hs
+      exact same _ hs.symm rfl
+  | probeCtx a m cc =>
+    exfalso
+    simp only [cstep] at hs
+    cases hc : getCon s a with
+    | none => simp [hc] at hs
+    | some c =>
+      simp only [hc] at hs
+      split at hs <;> try simp at hs
+      exact same _ hs.2.symm rfl
+  | probe v e =>
+    exfalso
+    simp only [cstep] at hs; split at hs <;> simp at hs; exact same _ hs.symm rfl
+  | quiesce B =>
+    exfalso
+    simp only [cstep] at hs; split at hs <;> simp at hs; exact same _ hs.symm rfl
+
+
+/-- **C10 `wait_keeps_alive`.** (Corollary of C08 `rel_not_while_held` in the composed model.) If in
+some step the release function of resolver call `i` gets called while a reference `a` — in
+particular the one held by a `Wait` / `Resolve` / `ResolveWithReleased` caller — is still a member of
+the reference set afterwards, then the step is a context change, or the `released()` section of `i`
+itself, or the final section of `i` when it was superseded before it returned (then `i` was never
+stored nor given to any reference). So a value returned by `Wait` / `Resolve` /
+`ResolveWithReleased` is not released before the caller releases the returned reference, unless it
+was invalidated. -/
+theorem wait_keeps_alive (es : List CEv) (s : CSt) (h : cmodel.run cmodel.init es = some s)
+    (e : CEv) (s' : CSt) (hs : cstep s e = some s') (i : Nat)
+    (h0 : released s.b i = false) (h1 : released s'.b i = true)
+    (a : Nat) (t : TS) (ha : s'.b.th[a]? = some t) (hlive : t.isLive = true) :
+    (∃ x, e = .base (.setCtxCS x) ∧ s'.b.ctx ≠ s.b.ctx) ∨
+    (∃ j, e = .base (.relRun j) ∧ s.b.relRuns[j]? = some i) ∨
+    (e = .base (.store i) ∧ ∃ c, s.b.calls[i]? = some c ∧ c.stored = false ∧ c.nonce ≠ s.b.nonce ∧
+      ∀ (r : Nat) (k : CbKind) (pc : Pc) (f sf : Bool) (told : Option Nat),
+        s.b.th[r]? = some (.ref k pc true f sf told) → k ≠ .nil → told ≠ some i) := by
+  have hi := creachable_inv es s h
+  obtain ⟨be, he, hst⟩ := cstep_flip_base s s' e hi hs i h0 h1
+  subst he
+  rcases rel_not_while_held_inv s.b hi.base be s'.b hst i h0 h1 with ⟨x, h2, h3⟩ | ⟨j, h2, h3⟩ | ⟨_, h3⟩ | ⟨h2, h3⟩
+  · left; exact ⟨x, by rw [h2], h3⟩
+  · right; left; exact ⟨j, by rw [h2], h3⟩
+  · exfalso
+    have := countP_pos_of_getElem? TS.isLive s'.b.th a t ha hlive
+    unfold liveRefs at h3; omega
+  · right; right; exact ⟨by rw [h2], h3⟩
+
+
+/-! ## the model does something: Access invalidated during its callback, re-invoked with the replacement -/
+
+def exAccess : List CEv := [.base (.cfg false 1 true), .inv 0 .access, .base (.addRefCS 0), .base (.enter 0 0),
+  .base (.leave 0 0 1 true 0), .base (.store 0), .base (.cb (.refcb 0 false true 1 0)), .base (.done 0),
+  .snap 0, .cbin 0 0 1,
+  .base (.envReleased 0), .base (.relRun 0), .base (.cb (.refcb 0 false false 0 0)), .watch 0,
+  .base (.cb (.rel 0 0 0)), .base (.enter 1 1), .probe 0 0, .probeCtx 0 0 true, .quiesce [0],
+  .cbout 0 0 0, .check 0, .recheck 0,
+  .base (.leave 1 1 2 true 0), .base (.store 1), .base (.cb (.refcb 0 false true 2 0)), .base (.done 1),
+  .snap 0, .cbin 0 1 2, .cbout 0 1 5, .check 0, .recheck 0, .base (.selfRelCS 0), .base (.cb (.rel 1 1 0)),
+  .ret 0 0 5, .probe 0 0, .quiesce []]
+
+example : (cmodel.run cmodel.init exAccess).isSome = true := by decide
 
 end UtilModel.RefCount.Cons
